@@ -53,6 +53,21 @@ def instantiate(ev, name, node, st):
         # S(h+1) = S(h) + f(h) for a given h >= lo  (plain instance of the defining axiom)
         lo, hi, ((F, f),) = _sum_terms(ev, node, st, 1)
         return z3.Implies(zint(hi) >= zint(lo), F(zint(hi) + 1) == F(zint(hi)) + zint(f(hi)))
+    if name == "lemma_sum_diff_one":
+        # f == g on [lo,hi) except possibly at k0 in [lo,hi)  ==>  S_g(hi) - S_f(hi) == g(k0) - f(k0)
+        lo, hi, ((F, f), (G, g)) = _sum_terms(ev, node, st, 2)
+        k0 = as_int(ev.eval(node.args[5], st))
+        k = z3.Int(fresh_name("k"))
+        hyp = z3.And(zint(lo) <= zint(k0), zint(k0) < zint(hi),
+                     z3.ForAll([k], z3.Implies(z3.And(k >= lo, k < hi, k != zint(k0)), zint(f(k)) == zint(g(k)))))
+        return z3.Implies(hyp, G(zint(hi)) - F(zint(hi)) == zint(g(k0)) - zint(f(k0)))
+    if name == "lemma_sum_zero":
+        # non-negative terms: S(hi) >= 0, and S(hi) == 0 ==> every term is 0
+        lo, hi, ((F, f),) = _sum_terms(ev, node, st, 1)
+        k = z3.Int(fresh_name("k"))
+        j = z3.Int(fresh_name("j"))
+        hyp = z3.And(zint(hi) >= zint(lo), z3.ForAll([k], z3.Implies(z3.And(k >= lo, k < hi), zint(f(k)) >= 0)))
+        return z3.Implies(hyp, z3.And(F(zint(hi)) >= 0, z3.Implies(F(zint(hi)) == 0, z3.ForAll([j], z3.Implies(z3.And(j >= lo, j < hi), zint(f(j)) == 0)))))
     raise VerifError(f"unknown lemma {name}")
 
 
@@ -89,4 +104,19 @@ def prove_library(prover):
 
     out.append(("lemma_sum_split.base",) + prover.check_valid(defs, M(mid))[::2])
     out.append(("lemma_sum_split.step",) + prover.check_valid(defs + [h >= mid, mid >= lo, M(h)], M(h + 1))[::2])
+    k0 = z3.Int("lk0")
+
+    def D1(x):
+        hyp = z3.And(lo <= k0, z3.ForAll([k], z3.Implies(z3.And(k >= lo, k < x, k != k0), f(k) == g(k))))
+        return z3.Implies(hyp, G(x) - F(x) == z3.If(k0 < x, g(k0) - f(k0), 0))
+
+    out.append(("lemma_sum_diff_one.base",) + prover.check_valid(defs, D1(lo))[::2])
+    out.append(("lemma_sum_diff_one.step",) + prover.check_valid(defs + [h >= lo, D1(h)], D1(h + 1))[::2])
+
+    def Z(x):
+        hyp = z3.ForAll([k], z3.Implies(z3.And(k >= lo, k < x), f(k) >= 0))
+        return z3.Implies(hyp, z3.And(F(x) >= 0, z3.Implies(F(x) == 0, z3.ForAll([j], z3.Implies(z3.And(j >= lo, j < x), f(j) == 0)))))
+
+    out.append(("lemma_sum_zero.base",) + prover.check_valid(defs, Z(lo))[::2])
+    out.append(("lemma_sum_zero.step",) + prover.check_valid(defs + [h >= lo, Z(h)], Z(h + 1))[::2])
     return out
